@@ -559,16 +559,15 @@ Fixpoint index_byte (b : Z) (s : string) (off : nat) : option nat :=
   end.
 
 (* `for i := len(indexes)-1; i >= 0; i--`: [l] = [(i, indexes[i])] from the highest i down.
-   None = no index selects a group; Some (LPanic) = m.groups[index] with index < 0
-   (reachable: the 64-bit accumulation in runesToNumbers wraps negative from 19 digits on) *)
+   None = no index selects a group (a negative index — the 64-bit accumulation in
+   runesToNumbers wraps from 19 digits on — names no group; repaired in /repo d8cda2c) *)
 Fixpoint backoff (l : list (nat * Z)) (groups : list string) : option (lres (string * nat)) :=
   match l with
   | [] => None
   | (i, n) :: t =>
       let index := wrap_int (n - 1) in
-      if index <? Z.of_nat (List.length groups) then
-        if index <? 0 then Some (LPanic "index out of range")
-        else Some (LOk (nth (Z.to_nat index) groups "", S i))
+      if (0 <=? index) && (index <? Z.of_nat (List.length groups)) then
+        Some (LOk (nth (Z.to_nat index) groups "", S i))
       else backoff t groups
   end.
 
